@@ -137,7 +137,7 @@ IncThm ==
        /\ ((m = "lighten" /\ F8[fi] > 0 /\ DyLt(x, hi)) => ~IncCompOK("f32", m, x, lo, hi, f, x))
 
 (* vacuity of the antecedents above: the lattices contain opposite, wrapping, equal and out-of-turn hue pairs,
-   factors on both sides of [0, 1], and the definitions shared with Hue.tla's text behave as documented there *)
+   factors on both sides of [0, 1], and the circle arithmetic taken from Hue.tla behaves as documented there *)
 ASSUME Witnesses ==
   /\ \E i, j \in 1..10 : DyEq(CD(DySub(Hv(j), Hv(i))), D180)
   /\ \E i, j \in 1..10 : DySign(SignedDiff(Hv(i), Hv(j))) < 0 /\ DyLt(Hv(i), Hv(j))          \* wraps backwards
@@ -234,5 +234,13 @@ ArithThm ==
        /\ (p[2] \in {1, 4, 8} => /\ ArithCompOK("Div", "f32", x, y, DyMul(x, E8(64 \div p[2])))
                                     /\ ~ArithCompOK("Div", "f32", x, y, DyAdd(DyMul(x, E8(64 \div p[2])), E8(1))))
        /\ ArithCompOK("Div", "f32", x, D0, x)          \* division by zero: nothing is claimed
+       \* a quotient that is not a dyadic: x / 3 cut to 24 significant bits (within one ulp) is accepted for either sign,
+       \* cut to 16 bits it is rejected
+       /\ (p[1] # 0 =>
+             LET q == FxDivInt(FxOfDy(x), 3)  nb == BitLen(q[2])
+                 cut(bits) == LET r == IShl(IShr(q, nb - bits), nb - bits) IN <<r[1], -FL, r[2]>>
+             IN /\ ArithCompOK("Div", "f32", x, DyFromInt(3), cut(24)) /\ ArithCompOK("Div", "f32", DyNeg(x), DyFromInt(3), DyNeg(cut(24)))
+                /\ (cut(16) # cut(24) => /\ ~ArithCompOK("Div", "f32", x, DyFromInt(3), cut(16))
+                                         /\ ~ArithCompOK("Div", "f32", DyNeg(x), DyFromInt(3), DyNeg(cut(16)))))
 
 =============================================================================
